@@ -598,6 +598,11 @@ ARGV_TABLE = [
     (["--error-format", "@{error.message}", "s.json"], {"error_format": "@{error.message}", "output": "plain"}),
     (["-F", "{error.message}\n", "-o", "plain", "s.json"], {"error_format": "{error.message}\n"}),
     (["--error-format=", "s.json"], {"error_format": ""}),
+    # the template is the caller's: it is not tried out on anything before there is an error to format
+    (["--error-format", "{error.path[0]}: {error.message}\n", "s.json"], {"error_format": "{error.path[0]}: {error.message}\n"}),
+    (["-F", "{error.instance[key]} {error.validator_value[0]} {error.context[0].message}", "s.json"],
+     {"error_format": "{error.instance[key]} {error.validator_value[0]} {error.context[0].message}"}),
+    (["-F", "{not_an_error_field}", "s.json"], {"error_format": "{not_an_error_field}"}),
     (["--output", "pretty", "s.json"], {"output": "pretty", "error_format": None}),
     (["--base-uri", "http://x/y/", "s.json"], {"base_uri": "http://x/y/"}),
     (["--base-uri", "@base", "s.json"], {"base_uri": "@base"}),
